@@ -81,8 +81,8 @@ fn single_op_family(out: &mut Vec<Case>, rng: &mut Rng, caps: &[u32]) {
     }
 }
 
-/// finding F13: `impl Drop for iour::Driver` turns every CQE of the drained completion queue back into a key,
-/// also the ones flagged `more`
+/// regression family of finding F13 (repaired): `impl Drop for iour::Driver` used to turn every CQE of the drained
+/// completion queue back into a key, also the ones flagged `more`
 fn f13_family(out: &mut Vec<Case>) {
     for cap in [4u32, 1024] {
         // zero-copy send: send CQE (more) + notification CQE unseen, caller still holds the key
